@@ -146,6 +146,9 @@ class SqliteRecorder(CaseRecorder):
     _abs2meta : {'name': {}}
         Dictionary mapping absolute variable names to their metadata including units,
         bounds, and scaling.
+    _name_depth : dict
+        Dictionary mapping absolute variable names to the depth of the outermost requester
+        (so far) in whose namespace the variable was given its promoted name.
     _pickle_version : int
         The pickle protocol version to use when pickling metadata.
     _filepath : str
